@@ -3,7 +3,7 @@
    theorems of Compile/StmtSim.v apply to them (their hypotheses are satisfiable). *)
 From MS Require Import Lang.Eval.
 From MS Require Import Vm.Model Lang.Syntax Compile.Compile Verify.Sound Compile.ExprBase Compile.ExprSim.
-From MS Require Import Compile.StmtMach Compile.StmtRel Compile.StmtFrag Compile.StmtSim Compile.StmtFun.
+From MS Require Import Compile.StmtMach Compile.StmtRel Compile.StmtFrag Compile.StmtSim Compile.StmtFun Compile.StmtMod.
 Open Scope nat_scope.
 
 Definition vx : str := [120%N].   Definition vy : str := [121%N].   Definition vi : str := [105%N].
@@ -240,3 +240,29 @@ Example C01_nv_stage5a :
   vm_out nv_s7 5000 = (fst (run 5000 nv_s7), Done) /\ snd (run 5000 nv_s7) = RODone /\
   length (fst (run 5000 nv_s7)) = 14.
 Proof. vm_compute. repeat split. Qed.
+
+(* ---------------------------------------------------------------- stage 5a+: function definitions anywhere at the top level
+   of the module, after data assignments and statements (the shape of the check's skeleton programs) *)
+Definition vh : str := [104%N].
+Definition nv_s8 : source :=
+  [ SAssign vn (EInt 1); SAssign vk (EInt 0);
+    SAssign vh (EFn [vx] [SReturn (Some (EBin BMul (EVar vx) (EInt 2)))]);
+    SFrom (EInt 1) (EVar vn) true (Some (EInt 2)) None false
+      [ SAssign vk (EBin BAdd (EVar vk) (EInt 1)); SExpr (ECall (EVar vh) [EVar vn]); SPrint (EVar vk) ];
+    SAssign vn (EBin BAdd (EVar vn) (EInt 1));
+    SAssign vf (EFn [vn] [ SAssign vk (EInt 0);
+                           SIfElse (EBin BLt (EVar vn) (EInt 2)) [ SPrint (EStr [116%N]) ]
+                             [ SFrom (EInt 0) (EInt 3) false None (Some vj) false
+                                 [ SAssign vk (EVar vj); SIf (EBin BEq (EVar vk) (EInt 1)) [ SContinue ];
+                                   SAssign vt (ECall (EVar vh) [EVar vk]); SPrint (EVar vt) ] ];
+                           SReturn (Some (EVar vk)) ]);
+    SPrint (ECall (EVar vf) [EInt 0]);
+    SPrint (ECall (EVar vf) [EVar vn]) ].
+Example C01_nv_stage5_interleaved :
+  mod_ok [] [] (classify nv_s8) /\
+  vm_out nv_s8 5000 = (fst (run 5000 nv_s8), Done) /\ snd (run 5000 nv_s8) = RODone /\
+  fst (run 5000 nv_s8) = [[49]; [116]; [48]; [48]; [52]; [50]]%N.
+Proof.
+  split; [|vm_compute; repeat split].
+  cbn [classify nv_s8 mod_ok app]. fn_ok_tac; try (vm_compute; intuition discriminate); cbn [fn_ok]; fn_ok_tac.
+Qed.
